@@ -182,9 +182,7 @@ func (r *run) Do(op string) string {
 		if !ok {
 			return "nosuch"
 		}
-		if len(r.calls) > 0 {
-			return "badop" // address assignment racing a termination in progress is not explored
-		}
+
 		return classify(r.m.AssignAddress(ctx, id, "p", "")) + " " + r.snapshot()
 	case "term":
 		id, ok := r.names[f[1]]
@@ -253,8 +251,8 @@ func (comp) Gen(rg *rand.Rand, tier string, emit func([]string)) {
 			case made == 0:
 				continue
 			case x < 45:
-				if len(parked) > 0 {
-					continue
+				if len(parked) > 0 && rg.Intn(4) != 0 {
+					continue // an assignment racing a termination in progress is kept rare (recorded finding)
 				}
 				seq = append(seq, fmt.Sprintf("assign s%d", 1+rg.Intn(made)))
 			case x < 60:
